@@ -177,4 +177,25 @@ def scheduleVerdict (D : List Dir) (cbs : Dir → Bool) (evs evs' : List Event) 
     "bad:callback-position:a parsing callback did not run right after its directive's setups and before every later directive"
   else "ok"
 
+/-! ### the documented order after a history of loads (stream `c09.history`)
+
+A process first loads Casketfiles that are rejected for a misspelt directive, then a valid
+two-directive site of `scenarios`.  Observed: which of the earlier loads were rejected (`r`/`a`,
+informational), the probe's observation on the site loaded last, and `ValidDirectives("http")`
+afterwards.  The property: the order in which directives act is FIXED — the probe shows the
+documented nesting and the list is still the documented one, whatever was loaded before. -/
+
+def historyFlags (rs : List LoadResult) : String :=
+  String.join (rs.map fun r => match r with | .rejected _ => "r" | .loaded _ => "a")
+
+/-- the judge: `obs` the probe's observation on the site loaded last, `after` the directive list
+the process reports afterwards, `D0` the documented list -/
+def historyVerdict (D0 : List Dir) (s : Scenario) (obs : String) (after : List Dir) : String :=
+  if obs ≠ s.documented then
+    "bad:documented-order-after-history:" ++ s.outer ++ " does not act before/around " ++ s.inner ++
+      " in a site loaded after rejected Casketfiles"
+  else if after ≠ D0 then
+    "bad:list-changed-by-history:ValidDirectives(\"http\") is no longer the documented list after rejected Casketfiles"
+  else "ok"
+
 end Casket.ExecSpec
